@@ -72,7 +72,7 @@ def tree_families(tier, seed):
         es = [A, bin_("+", B, I(1)), lst([Cn]), fn(["p"], N("p"))][:k]
         t += [lst(es), call("f", *es), fn(["p", "q", "r"][:k], A), assign("x", lst(es)), ret(call("f", *es)), bin_("+", lst(es), lst(es)), call("f", fn(["p", "q", "r"][:k], lst(es)))]
     t += [lst([lst([lst([])])]), call("f", call("g", call("h"))), fn([], fn([], fn([], I(1)))), bin_("+", fn([], I(1)), I(2)), call("f", fn([], I(1)), fn(["p"], N("p"))),
-          ix1(fn([], lst([I(1)])), I(0)), lst([fn([], I(1)), I(2)]), assign("x", fn([], assign("z", fn([], I(1))))), St(""), St('q"z'), St("a b"), St("line\nbreak"), St("{[;"),
+          ix1(fn([], lst([I(1)])), I(0)), lst([fn([], I(1)), I(2)]), assign("x", fn([], assign("z", fn([], I(1))))), St(""), St('q"z'), St('z"'), St('"'), St('"q'), St('a""'), St('""'), St('say "hi"'), St("a b"), St("line\nbreak"), St("{[;"),
           Fl(51, 2), Fl(0, 0), I(0), I(123456), Bo(True), N("foo"), ife(Bo(True), I(1), ife(Bo(False), I(2), I(3))), iff(A, iff(B, Cn)), ife(A, iff(B, Cn), I(1)), ife(A, wh(B, iff(Cn, I(1))), I(2)),
           ife(A, assign("x", fn([], iff(B, I(1)))), I(2)), block([I(1), I(2)]), block([assign("x", I(1)), iff(A, block([I(1), I(2)])), I(3)])]
     fams["calls, literals, arrays with 0-3 elements, function literals in every position, strings"] = t
@@ -106,7 +106,7 @@ class RoundTripGen:
         if c < 0.3:
             return Bo(R.random() < 0.5)
         if c < 0.37:
-            return St(R.choice(["", "ab", "a b", 'q"z']))
+            return St(R.choice(["", "ab", "a b", 'q"z', 'z"', '"', '"q"']))
         if c < 0.6 or d <= 0:
             return self.name()
         if c < 0.7:
